@@ -136,6 +136,17 @@ def m_json_de_end(ex, args, callee):
     raise Unsupported(f'Deserializer::end of {de!r}')
 
 
+def m_token_index(ex, args, callee):
+    """byte-slicing the client's token text: panics unless the offsets are within the text and on character boundaries (the text is
+    arbitrary UTF-8 the client chose)"""
+    t = dv(args[0])
+    if not isinstance(t, TokenIn):
+        from mirsym.models import m_str_index
+        return m_str_index(ex, args, callee)
+    if not ex.truth(z3.Bool(t.name + '_slice_offsets_are_char_boundaries')): raise Panic('byte index is not a char boundary')
+    return SymStr(z3.FreshConst(StrSort, 'token_slice'))
+
+
 def m_token_trim(ex, args, callee):
     """trim of a client token: unchanged without surrounding whitespace; with it, the text as sent is not base64 (whitespace is outside
     every alphabet) while what remains may well be a good token"""
@@ -175,7 +186,8 @@ MODELS = [
     (r'^(serde_json::)?from_slice::', m_from_slice),
     (r'^(serde_json::)?from_value::', m_from_value),
     (r'Deserializer::<.*>::from_slice$', m_json_de_from_slice), (r'^serde_path_to_error::deserialize::<', m_path_to_error_deserialize),
-    (r'Deserializer::<.*>::end$', m_json_de_end), (r'<impl str>::trim$|<impl str>::trim_end$|<impl str>::trim_start$', m_token_trim),
+    (r'Deserializer::<.*>::end$', m_json_de_end),
+    (r'^<(str|String) as (std::ops::)?Index<(std::ops::)?Range(To|From)?<usize>>>::index$|str>::index::<|traits::<impl (std::ops::)?Index<.*> for str>::index', lambda ex, a, c: m_token_index(ex, a, c)), (r'<impl str>::trim$|<impl str>::trim_end$|<impl str>::trim_start$', m_token_trim),
     (r'^String::len$|<impl str>::len$|Vec::<u8>::len$', m_len),
     (r'^String::is_empty$|<impl str>::is_empty$|Vec::<u8>::is_empty$', lambda ex, a, c: m_len(ex, a, c) == 0),
     (r'<impl str>::as_bytes$|String::as_bytes$|<Vec<u8> as Deref>::deref$|String as Deref>::deref$', lambda ex, a, c: dv(a[0])),
@@ -329,7 +341,8 @@ def part_tokens_in(C):
     for pc, (k, r) in outs:
         if k != 'ok':
             m = chk.prove('token-in/no-panic', pc, z3.BoolVal(True))
-            report_token_in(chk, m, t, f'deserialize_page_token panicked: {r}'); continue
+            if m is not None: report_token_panic(chk, f'deserialize_page_token panicked: {r}')
+            continue
         wellformed = z3.And(z3.ULE(t.len, MAXLEN), t.decodes, t.parses)
         if r.discr == 0:
             m = chk.prove('token-in/accepted-only-if-wellformed', pc, z3.Not(wellformed), extra=t.wf(), prefer=[z3.ULE(t.len, 700), z3.URem(t.len, 4) == 0, t.decodes, t.parses])
@@ -365,7 +378,7 @@ def part_whichpage(C):
         for pc, (k, r) in outs:
             if k != 'ok':
                 m = chk.prove(f'whichpage/{shape}/no-panic', pc, z3.BoolVal(True))
-                if m is not None: chk.mismatches.append(f'deserialize_whichpage panicked on {shape}: {r}')
+                if m is not None: report_token_panic(chk, f'deserialize_whichpage panicked on {shape}: {r}')
                 continue
             wf = z3.And(z3.ULE(tk.len, MAXLEN), tk.decodes, tk.parses)
             if 'token' in shape:
@@ -472,6 +485,18 @@ def report_token(chk, m, n, what):
     if fits: bad = not nat.get('issued') or not nat.get('roundtrip_all') or nat.get('token_len', 0) > 512
     else: bad = nat.get('issued') or not (500 <= nat.get('issue_status', 0) <= 599)
     chk.counterexample(f'{what}: selector with JSON length {L} -> native {nat}', case, bad, role='token')
+
+
+def report_token_panic(chk, what):
+    """a panic while looking at the client's token text: replay tokens of several lengths with multi-byte characters at every small offset"""
+    cases = []
+    for total in (40, 600):
+        for k in range(0, 24):
+            for ch in ('\u00e9', '\u20ac', '\U0001F980'):
+                cases.append({'op': 'token_in', 'len': 0, 'decodes': False, 'parses': False, 'token_text': 'A' * k + ch + 'A' * total})
+    nats = replay(cases)
+    bad = [(c_['token_text'][:20], n_.get('status')) for c_, n_ in zip(cases, nats) if not (400 <= n_.get('status', 0) <= 499)]
+    chk.counterexample(f'{what}; tokens with a multi-byte character at offsets 0..23 natively: {bad[:4]} ({len(bad)} of {len(cases)} not answered with a 4xx)', cases[0], bool(bad), role='token-in:panic')
 
 
 def report_token_in(chk, m, t, what):
